@@ -23,16 +23,16 @@ PROPS = {
     "C01": ["C01_nopanic.v", "C01_signals.v", "C01_parse_wf.v"],
     "C02": ["C02_schedule.v"],
     "C03": ["C03_stream.v", "C02_schedule.v"],
-    "C04": ["C04_json.v", "C04_roundtrip.v"],
+    "C04": ["C04_json.v", "C04_roundtrip.v", "C04_closed.v"],
     "C05": ["C05_operators.v"],
     "C06": ["C06_syntax.v", "C06_evaluates_identically.v"],
-    "C07": ["C07_control.v"],
+    "C07": ["C07_control.v", "C10_objects_sorted.v"],
     "C08": ["C08_frames.v"],
     "C09": ["C09_reads.v", "C09_stores.v"],
-    "C10": ["C10_determinism.v"],
+    "C10": ["C10_determinism.v", "C10_objects_sorted.v"],
     "C11": ["C11_faults.v"],
     "C12": ["C12_positions.v"],
-    "C13": ["C13_lexer.v", "C06_evaluates_identically.v"],
+    "C13": ["C13_lexer.v", "C13_statements.v", "C06_evaluates_identically.v"],
     "C14": ["C14_cli.v"],
     "C15": ["C15_arrays.v"],
     "C16": ["C16_methods.v", "C16_numbers.v", "C16_strings.v"],
